@@ -367,6 +367,20 @@ def check(case, ctx):
                     open(outp, 'wb').write(prior)
                 if c.returncode != 0 or got != b.stdout:
                     raise Violation('cli:render:-b', 'fmt=%s rc=%d bare name %r in its folder\n-b: %r\nstdin: %r' % (fmt, c.returncode, bn, (got or b'')[-600:], b.stdout[-600:]))
+                # ... and as the SECOND file of a batch whose first file lives in another folder: every file is resolved against its own folder
+                dd = os.path.join(ctx.scratch, 'decoy-folder')
+                os.makedirs(dd, exist_ok=True)
+                open(os.path.join(dd, 'decoy.txt'), 'w').write('transclude base: .\n\ndecoy text {{nothing-here.txt}}\n')
+                prior = open(outp, 'rb').read() if os.path.exists(outp) else None
+                c2 = subprocess.run([cli, '-b', '-t', fmt, os.path.join(dd, 'decoy.txt'), top_path], stdout=subprocess.PIPE, stderr=subprocess.PIPE, env=env, cwd=top_dir, timeout=120)
+                got2 = open(outp, 'rb').read() if os.path.exists(outp) else None
+                if prior is None:
+                    if got2 is not None:
+                        os.unlink(outp)
+                else:
+                    open(outp, 'wb').write(prior)
+                if c2.returncode != 0 or got2 != b.stdout:
+                    raise Violation('cli:render:-b-second-of-two', 'fmt=%s rc=%d\n-b (second file): %r\nstdin: %r' % (fmt, c2.returncode, (got2 or b'')[-600:], b.stdout[-600:]))
                 ctx.cls('cli_batch_leg_checked')
         ctx.cls('cli_leg_checked')
 
